@@ -3,9 +3,14 @@ package codegen
 import (
 	"crypto/sha256"
 	"encoding/hex"
+	"encoding/json"
 	"fmt"
+	"io"
+	"os"
+	"path/filepath"
 	"strings"
 	"sync"
+	"syscall"
 	"testing"
 
 	"pgregory.net/rapid"
@@ -71,7 +76,7 @@ func registerWitnesses(t *testing.T, rec *ev.Rec) map[string]bool {
 		wg.Add(1)
 		go func(i int, w witness) {
 			defer wg.Done()
-			b, d := runWitness(w)
+			b, d := sharedWitness(w)
 			out[i] = res{b, d}
 		}(i, w)
 	}
@@ -92,16 +97,59 @@ func registerWitnesses(t *testing.T, rec *ev.Rec) map[string]bool {
 	return excluded
 }
 
+// sharedWitness evaluates a witness once per check run: the shards of one run (separate processes
+// with a common $VERIF_OUT, which the driver wipes before every run) share the result through a
+// file guarded by flock. Outside the driver the witness is simply run.
+func sharedWitness(w witness) (bool, string) {
+	dir := os.Getenv("VERIF_OUT")
+	if dir == "" || w.id == "" {
+		return runWitness(w)
+	}
+	dir = filepath.Join(dir, "witness")
+	if err := os.MkdirAll(dir, 0o755); err != nil {
+		return runWitness(w)
+	}
+	f, err := os.OpenFile(filepath.Join(dir, w.id+".json"), os.O_RDWR|os.O_CREATE, 0o644)
+	if err != nil {
+		return runWitness(w)
+	}
+	defer f.Close()
+	if err := syscall.Flock(int(f.Fd()), syscall.LOCK_EX); err != nil {
+		return runWitness(w)
+	}
+	defer syscall.Flock(int(f.Fd()), syscall.LOCK_UN)
+	var r struct {
+		Bad    bool
+		Detail string
+	}
+	if b, err := io.ReadAll(f); err == nil && len(b) > 0 && json.Unmarshal(b, &r) == nil {
+		return r.Bad, r.Detail
+	}
+	r.Bad, r.Detail = runWitness(w)
+	if strings.HasPrefix(r.Detail, "HARNESS-BUG") || strings.HasPrefix(r.Detail, "harness error") {
+		return r.Bad, r.Detail // not stored: the next shard tries again
+	}
+	if b, err := json.Marshal(r); err == nil {
+		f.Seek(0, 0)
+		f.Truncate(0)
+		f.Write(b)
+	}
+	return r.Bad, r.Detail
+}
+
 const f29 = "F29-split-files-unused-imports"
 
 // excuse: an open finding whose trigger class is present in the input and whose signature matches.
-func excuse(rec *ev.Rec, c *genCase, kind, detail string) bool {
+func excuse(rec *ev.Rec, c *genCase, f pipeline.Flags, kind, detail string) bool {
 	for _, w := range witnesses {
 		trig := false
 		for _, cl := range w.classes {
 			if c.has("collision:" + cl) {
 				trig = true
 			}
+		}
+		if w.when != nil && !w.when(f) {
+			trig = false
 		}
 		if rec.Excuse(w.id, trig && kind == w.stage && w.sig.MatchString(detail)) {
 			return true
@@ -231,7 +279,7 @@ func TestC26_Random(t *testing.T) {
 		if kind == "" {
 			return
 		}
-		if excuse(rec, c, kind, detail) {
+		if excuse(rec, c, f, kind, detail) {
 			return
 		}
 		rt.Fatalf("C26 violated (%s):\n%s\ncommand: %s\n%s", kind, detail, r.Gen.CmdLine(), describe(c, f.String(), ""))
